@@ -42,6 +42,9 @@ pub struct GCase {
     /// how the graph was reached (see `build_world`)
     #[serde(default)]
     pub churn: u8,
+    /// other searches interfering with the checked one (see `interf_text`)
+    #[serde(default)]
+    pub interf: u8,
 }
 
 impl GCase {
@@ -50,6 +53,7 @@ impl GCase {
         for (i, (u, v)) in self.conns.iter().enumerate() {
             s += &format!("n{}.connect(&n{}, {}); ", u, v, i + 1);
         }
+        s += interf_text(self.interf);
         s += &format!("n{}.{}", self.root, self.cfg.describe());
         if self.cfg.meth == Meth::Filter {
             s += &format!(" with filter rejecting {:?}", self.reject);
@@ -256,13 +260,72 @@ thread_local! {
 
 pub type Trace = Vec<(Arc3, bool)>;
 
+thread_local! {
+    /// Other searches interfering with the checked one: 0 = none; 1 = every
+    /// kind of search is run from every node of the same graph BEFORE the
+    /// checked call (marks, stamps or links left in the nodes by an earlier
+    /// search); 2 = the closure of the checked call itself runs every kind of
+    /// search from the target of the edge it was handed (a nested search
+    /// sharing per-node state with the running one). Searches do not change
+    /// the graph, so every oracle applies unchanged.
+    pub static INTERF: std::cell::Cell<u8> = const { std::cell::Cell::new(0) };
+}
+pub fn set_interf(c: u8) {
+    INTERF.with(|x| x.set(c));
+}
+pub fn interf() -> u8 {
+    INTERF.with(|x| x.get())
+}
+pub fn interf_text(c: u8) -> &'static str {
+    match c {
+        1 => "[first every kind of search (with and without target, cycle searches, transposed) is run from every node] ",
+        2 => "[the closure also runs every kind of search from the target of the edge it is handed] ",
+        _ => "",
+    }
+}
+
+fn all_searches_from<F: Fl>(nd: &F::Node, n: usize, with_targets: bool) {
+    for kind in ALL_KINDS {
+        for transpose in [false, true] {
+            if transpose && !F::DIRECTED {
+                continue;
+            }
+            let res = if kind.is_order() { ResK::Nodes } else { ResK::Path };
+            let cfg = Cfg { kind, transpose, target: None, meth: Meth::None, res, alt: false, tt: false };
+            let _ = F::search(nd, &cfg, &mut |_| true);
+            if !kind.is_order() && with_targets {
+                let t = ((F::key(nd) as usize + 1) % n.max(1)) as K;
+                for res in [ResK::Path, ResK::Search] {
+                    let cfg = Cfg { kind, transpose, target: Some(t), meth: Meth::Filter, res, alt: false, tt: false };
+                    let _ = F::search(nd, &cfg, &mut |_| true);
+                }
+                // a search that discovers nothing at all: every edge rejected
+                let cfg = Cfg { kind, transpose, target: Some(t), meth: Meth::Filter, res: ResK::Path, alt: false, tt: false };
+                let _ = F::search(nd, &cfg, &mut |_| false);
+                let cfg = Cfg { kind, transpose, target: None, meth: Meth::None, res: ResK::Cycle, alt: false, tt: false };
+                let _ = F::search(nd, &cfg, &mut |_| true);
+            }
+        }
+    }
+}
+
 pub fn exec<F: Fl>(w: &World<F>, root: K, cfg: &Cfg, reject: &[Arc3]) -> Result<(SRes, Trace), Fail> {
     let mut trace: Trace = Vec::new();
+    let mode = interf();
     let r = guarded(|| {
+        if mode == 1 {
+            for nd in &w.nodes {
+                all_searches_from::<F>(nd, w.nodes.len(), true);
+            }
+        }
         let mut cb = |e: &F::Edge| {
             let a = F::edge_accessors(e);
             let ok = !reject.contains(&a);
             trace.push((a, ok));
+            if mode == 2 {
+                let (_, t, _) = F::edge_parts(e);
+                all_searches_from::<F>(&t, 0, false);
+            }
             ok
         };
         F::search(&w.nodes[root as usize], cfg, &mut cb).0
@@ -645,6 +708,9 @@ pub struct GParams {
     /// behind a corridor / a fan of m already-discovered nodes, for every m listed
     #[serde(default)]
     pub prefix: Vec<usize>,
+    /// other searches interfering with the checked one (see `INTERF`)
+    #[serde(default)]
+    pub interf: u8,
 }
 
 /// The large structured families: (family name, connect history).
@@ -806,7 +872,7 @@ pub fn prefixed_sweep<F: Fl>(job: &Job, p: &GParams, out: &mut Out) {
                         continue;
                     }
                     crate::progress::tick();
-                    let c = GCase { n: *n, conns: conns.clone(), vals: vals.clone(), root, cfg, reject, mode: mode.to_string(), churn: churn() };
+                    let c = GCase { n: *n, conns: conns.clone(), vals: vals.clone(), root, cfg, reject, mode: mode.to_string(), churn: churn(), interf: interf() };
                     out.stats.inc("evaluations");
                     match check_case::<F>(prop, &w, &m, &c, &mut dfs, wt.as_ref()) {
                         Ok(_) => {
@@ -918,7 +984,7 @@ pub fn large_sweep<F: Fl>(job: &Job, p: &GParams, out: &mut Out) {
                         continue;
                     }
                     crate::progress::tick();
-                    let c = GCase { n: *n, conns: conns.clone(), vals: vals.clone(), root, cfg, reject, mode: mode.to_string(), churn: churn() };
+                    let c = GCase { n: *n, conns: conns.clone(), vals: vals.clone(), root, cfg, reject, mode: mode.to_string(), churn: churn(), interf: interf() };
                     out.stats.inc("evaluations");
                     match check_case::<F>(prop, &w, &m, &c, &mut dfs, wt.as_ref()) {
                         Ok((sres, _)) => {
@@ -1005,7 +1071,7 @@ pub fn heap_sweep<F: Fl>(job: &Job, k: usize, out: &mut Out) {
             }
             for cfg in cfgs {
                 crate::progress::tick();
-                let c = GCase { n, conns: conns.clone(), vals: vals.clone(), root: 0, cfg, reject: vec![], mode: String::new(), churn: churn() };
+                let c = GCase { n, conns: conns.clone(), vals: vals.clone(), root: 0, cfg, reject: vec![], mode: String::new(), churn: churn(), interf: interf() };
                 out.stats.inc("evaluations");
                 out.stats.inc("nontrivial");
                 if let Err((class, what)) = check_case::<F>(prop, &w, &m, &c, &mut dfs, None) {
@@ -1301,6 +1367,10 @@ pub fn sweep<F: Fl>(job: &Job, out: &mut Out) {
     }
     let p: GParams = serde_json::from_value(job.params.clone()).expect("gsweep params");
     set_churn(p.churn);
+    set_interf(p.interf);
+    if p.interf > 0 {
+        out.stats.inc("interference_jobs");
+    }
     CHURN_FELL_BACK.with(|c| c.set(0));
     if !p.prefix.is_empty() {
         return prefixed_sweep::<F>(job, &p, out);
@@ -1353,7 +1423,7 @@ pub fn sweep<F: Fl>(job: &Job, out: &mut Out) {
                         continue;
                     }
                     crate::progress::tick();
-                    let c = GCase { n: p.n, conns: conns.clone(), vals: vals.clone(), root, cfg, reject, mode: mode.to_string(), churn: churn() };
+                    let c = GCase { n: p.n, conns: conns.clone(), vals: vals.clone(), root, cfg, reject, mode: mode.to_string(), churn: churn(), interf: interf() };
                     out.stats.inc("evaluations");
                     match check_case::<F>(prop, &w, &m, &c, &mut dfs, wt.as_ref()) {
                         Ok((sres, tlen)) => {
@@ -1421,7 +1491,7 @@ pub fn replay<F: Fl>(prop: &str, case: &Value) -> Vec<Violation> {
         for root in 0..n as K {
             for (cfg, reject, mode) in configs(prop, F::DIRECTED, n, root, &arcs, &arcs_t) {
                 crate::progress::tick();
-                let c = GCase { n, conns: conns.clone(), vals: vals.clone(), root, cfg, reject, mode: mode.to_string(), churn: churn() };
+                let c = GCase { n, conns: conns.clone(), vals: vals.clone(), root, cfg, reject, mode: mode.to_string(), churn: churn(), interf: interf() };
                 crate::progress::set_case(|| c.program(F::NAME));
                 if let Err((class, what)) = check_case::<F>(prop, &w, &m, &c, &mut dfs, Some(&wt)) {
                     out.report(Violation { property: prop.into(), engine: "gsweep".into(), flavour: F::NAME.into(), class, what, case: case.clone(), order: 0 });
@@ -1432,6 +1502,7 @@ pub fn replay<F: Fl>(prop: &str, case: &Value) -> Vec<Violation> {
     }
     let c: GCase = serde_json::from_value(case["case"].clone()).expect("gsweep case");
     set_churn(c.churn.max(churn()));
+    set_interf(c.interf.max(interf()));
     let m = GModel::new(c.n, F::DIRECTED, &c.conns, &c.vals);
     let w = build_world::<F>(&c.vals, &c.conns);
     let conns_t: Vec<(K, K)> = c.conns.iter().map(|(u, v)| (*v, *u)).collect();
